@@ -17,6 +17,10 @@ THEOREMS = [
     "BSVerif.Props.C12.encode16from32_shape",
     "BSVerif.Props.C12.render_wellformed",
     "BSVerif.Props.C12.decode8_throw_sound",
+    "BSVerif.Props.C12.encode8_throw_sound",
+    "BSVerif.Props.C12.decode16to32_throw_sound",
+    "BSVerif.Props.C12.encode16from32_throw_sound",
+    "BSVerif.Props.C12.transcode_throw_sound",
 ]
 RULE = ("all UTF-8 strings of length 1 and 2 (quick) / up to 3 (thorough) exhaustively; 4-byte strings, UTF-16 pairs/triples and "
         "UTF-32 units by class; ill-formed runs embedded in valid text; x targets x {skip with null/empty/default/custom mark, throw}; "
